@@ -1,1 +1,879 @@
-(* C09 proofs: in progress *)
+(* C09 proofs: the lexer model (Model/Lexer.v) against the vocabulary of Model/LexSpec.v. *)
+From Coq Require Import List String Bool Arith NArith ZArith Lia Sorted.
+From Yae Require Import Base.Sexp Gen.Generated Model.Lexer Model.LexSpec.
+Import ListNotations.
+Open Scope N_scope.
+
+(* ------------------------------------------------------------------------------------------------------------ *)
+(* basics                                                                                                       *)
+
+Lemma list_eqb_eq : forall a b, list_eqb a b = true <-> a = b.
+Proof.
+  induction a as [|x a IH]; intros [|y b]; simpl; split; intro H; try reflexivity; try discriminate.
+  - apply andb_true_iff in H. destruct H as [H1 H2]. apply N.eqb_eq in H1. apply IH in H2. subst. reflexivity.
+  - inversion H; subst. rewrite N.eqb_refl. simpl. apply IH. reflexivity.
+Qed.
+
+Lemma mem_op_In : forall k ops, mem_op k ops = true <-> In k ops.
+Proof.
+  intros k ops. unfold mem_op. rewrite existsb_exists. split.
+  - intros [x [Hin He]]. apply list_eqb_eq in He. subst. exact Hin.
+  - intro Hin. exists k. split; [exact Hin|]. apply list_eqb_eq. reflexivity.
+Qed.
+
+Lemma strip_prefix_app : forall p s r, strip_prefix p s = Some r -> s = (p ++ r)%list.
+Proof.
+  induction p as [|x p IH]; intros s r H; simpl in H.
+  - inversion H. reflexivity.
+  - destruct s as [|y t]; [discriminate|]. destruct (N.eqb x y) eqn:E; [|discriminate].
+    apply N.eqb_eq in E. subst y. simpl. f_equal. apply IH. exact H.
+Qed.
+
+Lemma strip_prefix_app_intro : forall p r, strip_prefix p (p ++ r) = Some r.
+Proof.
+  induction p as [|x p IH]; intro r; simpl; [reflexivity|]. rewrite N.eqb_refl. apply IH.
+Qed.
+
+Lemma skipn_app_len : forall (p r : list N), skipn (len p) (p ++ r) = r.
+Proof. induction p as [|x p IH]; intro r; simpl; [reflexivity|apply IH]. Qed.
+
+Lemma firstn_app_len : forall (p r : list N), firstn (len p) (p ++ r) = p.
+Proof. induction p as [|x p IH]; intro r; simpl; [reflexivity|f_equal; apply IH]. Qed.
+
+(* ------------------------------------------------------------------------------------------------------------ *)
+(* cursor                                                                                                       *)
+
+Lemma move_over_gen : forall l i ln col,
+  move_over (mkCur i ln col) l = mkCur (i + N.of_nat (len l)) (ln + count_nl l) (since_nl l col).
+Proof.
+  induction l as [|x l IH]; intros i ln col.
+  - unfold move_over, count_nl. simpl. f_equal; lia.
+  - change (move_over (mkCur i ln col) (x :: l)) with (move_over (move (mkCur i ln col) x) l).
+    unfold move, count_nl, len in *. cbn [c_idx c_line c_col since_nl filter List.length].
+    rewrite (N.eqb_sym 10 x).
+    destruct (N.eqb x 10) eqn:E; rewrite IH; cbn [List.length]; rewrite ?Nat2N.inj_succ; f_equal; lia.
+Qed.
+
+Lemma cursor_meaning : forall l,
+  move_over (mkCur 0 0 0) l = mkCur (N.of_nat (len l)) (count_nl l) (since_nl l 0).
+Proof. intro l. rewrite move_over_gen. f_equal. Qed.
+
+Lemma move_over_idx : forall l c, c_idx (move_over c l) = c_idx c + N.of_nat (len l).
+Proof. intros l [i ln col]. rewrite move_over_gen. reflexivity. Qed.
+
+Lemma move_over_app : forall a b c, move_over c (a ++ b) = move_over (move_over c a) b.
+Proof. intros. unfold move_over. apply fold_left_app. Qed.
+
+(* ------------------------------------------------------------------------------------------------------------ *)
+(* first_match                                                                                                  *)
+
+Lemma first_match_app : forall a b s,
+  first_match (a ++ b) s = match first_match a s with Some x => Some x | None => first_match b s end.
+Proof.
+  induction a as [|r a IH]; intros b s; simpl; [reflexivity|].
+  destruct (rule_match r s); [reflexivity|apply IH].
+Qed.
+
+Lemma first_match_none : forall rs s r, first_match rs s = None -> In r rs -> rule_match r s = None.
+Proof.
+  induction rs as [|x rs IH]; intros s r H Hin; simpl in *; [contradiction|].
+  destruct (rule_match x s) eqn:E; [discriminate|]. destruct Hin as [->|Hin]; [exact E|]. eapply IH; eauto.
+Qed.
+
+Lemma first_match_none_intro : forall rs s, (forall r, In r rs -> rule_match r s = None) -> first_match rs s = None.
+Proof.
+  induction rs as [|x rs IH]; intros s H; simpl; [reflexivity|].
+  rewrite (H x (or_introl eq_refl)). apply IH. intros r Hr. apply H. right. exact Hr.
+Qed.
+
+Lemma first_match_some : forall rs s k n, first_match rs s = Some (k, n) ->
+  exists r, In r rs /\ rule_kind r = k /\ rule_match r s = Some n.
+Proof.
+  induction rs as [|x rs IH]; intros s k n H; simpl in *; [discriminate|].
+  destruct (rule_match x s) eqn:E.
+  - inversion H; subst. exists x. auto.
+  - destruct (IH _ _ _ H) as [r [Hin Hr]]. exists r. auto.
+Qed.
+
+(* ------------------------------------------------------------------------------------------------------------ *)
+(* sort_ops                                                                                                     *)
+
+Section Sort.
+  Context {X : Type} (key : X -> nat).
+
+  Lemma insert_In : forall x y l, In y (insert_by_len key x l) <-> y = x \/ In y l.
+  Proof.
+    induction l as [|z l IH]; simpl.
+    - intuition.
+    - destruct (Nat.ltb (key z) (key x)); simpl; [intuition|]. rewrite IH. intuition.
+  Qed.
+
+  Lemma sort_In : forall y l, In y (sort_ops key l) <-> In y l.
+  Proof.
+    induction l as [|z l IH]; simpl; [reflexivity|].
+    unfold sort_ops in *. rewrite insert_In. rewrite IH. intuition.
+  Qed.
+
+  Definition ge_key (a b : X) : Prop := (key b <= key a)%nat.
+
+  Lemma insert_sorted : forall x l, StronglySorted ge_key l -> StronglySorted ge_key (insert_by_len key x l).
+  Proof.
+    induction l as [|z l IH]; intro H; simpl.
+    - constructor; constructor.
+    - inversion H as [|? ? Hs Hf]; subst. destruct (Nat.ltb (key z) (key x)) eqn:E.
+      + apply Nat.ltb_lt in E. constructor; [exact H|]. constructor; [unfold ge_key; lia|].
+        rewrite Forall_forall in *. intros w Hw. specialize (Hf w Hw). unfold ge_key in *. lia.
+      + apply Nat.ltb_ge in E. constructor; [apply IH; exact Hs|].
+        rewrite Forall_forall in *. intros w Hw. apply insert_In in Hw. destruct Hw as [->|Hw]; [exact E|auto].
+  Qed.
+
+  Lemma sort_sorted : forall l, StronglySorted ge_key (sort_ops key l).
+  Proof.
+    induction l as [|z l IH]; simpl; [constructor|]. apply insert_sorted. exact IH.
+  Qed.
+End Sort.
+
+Lemma rule_kind_oper : forall k, rule_kind (oper_rule k) = k.
+Proof. intro k. unfold oper_rule. destruct (is_ident_op k); reflexivity. Qed.
+
+(* ------------------------------------------------------------------------------------------------------------ *)
+(* the lexicon in four parts                                                                                    *)
+
+Definition fixed_rules : list rule := map RStr [[58]; [44]; [40]; [41]; [91]; [93]; [123]; [125]].
+Definition prim_rules : list rule := map RPrim (sort_ops byte_len [[46]; [63]]).
+Lemma In_prim_rules : forall r, In r prim_rules -> r = RPrim [46] \/ r = RPrim [63].
+Proof.
+  intros r H. unfold prim_rules in H. apply in_map_iff in H. destruct H as [k [<- Hk]].
+  apply (proj1 (sort_In byte_len _ _)) in Hk. simpl in Hk. destruct Hk as [<-|[<-|[]]]; auto.
+Qed.
+Definition tail_rules : list rule :=
+  [RKeyword K_TRUE; RKeyword K_FALSE;
+   RRegex K_NUM m_float1; RRegex K_NUM m_float2; RRegex K_NUM m_bin; RRegex K_NUM m_hex; RRegex K_NUM m_oct;
+   RRegex K_NUM m_dec; RRegex K_STR m_dqstr; RRegex K_STR m_raw; RRegex K_TIME m_time; RRegex K_SYM m_sym].
+
+Lemma lexicon_parts : forall ops,
+  lexicon ops = (fixed_rules ++ prim_rules ++ map oper_rule (sort_ops byte_len ops) ++ tail_rules)%list.
+Proof.
+  intro ops. unfold lexicon, fixed_rules, prim_rules, tail_rules. reflexivity.
+Qed.
+
+Lemma In_lexicon : forall ops r, In r (lexicon ops) ->
+  In r fixed_rules \/ In r prim_rules \/ (exists k, In k ops /\ r = oper_rule k) \/ In r tail_rules.
+Proof.
+  intros ops r H. rewrite lexicon_parts in H.
+  apply in_app_or in H. destruct H as [H|H]; [auto|].
+  apply in_app_or in H. destruct H as [H|H]; [auto|].
+  apply in_app_or in H. destruct H as [H|H]; [|auto].
+  right; right; left. apply in_map_iff in H. destruct H as [k [He Hk]]. exists k. split; [|auto].
+  apply (proj1 (sort_In byte_len _ _)) in Hk. exact Hk.
+Qed.
+
+(* ------------------------------------------------------------------------------------------------------------ *)
+(* whole words, prims                                                                                           *)
+
+Lemma match_keyword_spec : forall k s n, match_keyword k s = Some n ->
+  n = len k /\ match skipn n s with c :: _ => is_id_char c = false | [] => True end.
+Proof.
+  intros k s n H. unfold match_keyword in H. destruct (strip_prefix k s) as [r|] eqn:E; [|discriminate].
+  apply strip_prefix_app in E. subst s. destruct r as [|c r].
+  - inversion H; subst. split; [reflexivity|]. rewrite skipn_app_len. exact I.
+  - destruct (is_id_char c) eqn:Ec; [discriminate|]. inversion H; subst. split; [reflexivity|].
+    rewrite skipn_app_len. exact Ec.
+Qed.
+
+Lemma match_prim_spec : forall k s n, match_prim k s = Some n ->
+  n = len k /\ match skipn n s with c :: _ => is_oper_char c = false | [] => True end.
+Proof.
+  intros k s n H. unfold match_prim in H. destruct (strip_prefix k s) as [r|] eqn:E; [|discriminate].
+  apply strip_prefix_app in E. subst s. destruct r as [|c r].
+  - inversion H; subst. split; [reflexivity|]. rewrite skipn_app_len. exact I.
+  - destruct (is_oper_char c) eqn:Ec; [discriminate|]. inversion H; subst. split; [reflexivity|].
+    rewrite skipn_app_len. exact Ec.
+Qed.
+
+Lemma whole_word : forall ops s k n,
+  ops_wf ops = true ->
+  first_match (lexicon ops) s = Some (k, n) ->
+  is_ident_op k = true -> (mem_op k ops = true \/ k = K_TRUE \/ k = K_FALSE) ->
+  n = len k /\ match skipn n s with c :: _ => is_id_char c = false | [] => True end.
+Proof.
+  intros ops s k n _ Hfm Hid _.
+  apply first_match_some in Hfm. destruct Hfm as [r [Hin [Hk Hm]]].
+  apply In_lexicon in Hin. destruct Hin as [Hin|[Hin|[[k0 [Hk0 ->]]|Hin]]].
+  - simpl in Hin. repeat (destruct Hin as [<-|Hin]; [simpl in Hk; subst k; vm_compute in Hid; discriminate|]).
+    contradiction.
+  - apply In_prim_rules in Hin. destruct Hin as [->| ->]; simpl in Hk; subst k; vm_compute in Hid; discriminate.
+  - rewrite rule_kind_oper in Hk. subst k0. unfold oper_rule in Hm. rewrite Hid in Hm. simpl in Hm.
+    apply match_keyword_spec. exact Hm.
+  - simpl in Hin.
+    destruct Hin as [<-|Hin]; [simpl in Hk; subst k; simpl in Hm; apply match_keyword_spec; exact Hm|].
+    destruct Hin as [<-|Hin]; [simpl in Hk; subst k; simpl in Hm; apply match_keyword_spec; exact Hm|].
+    repeat (destruct Hin as [<-|Hin]; [simpl in Hk; subst k; vm_compute in Hid; discriminate|]).
+    contradiction.
+Qed.
+
+Lemma prim_not_split : forall ops s k n,
+  ops_wf ops = true -> mem_op [46] ops = false -> mem_op [63] ops = false ->
+  first_match (lexicon ops) s = Some (k, n) -> (k = [46] \/ k = [63]) ->
+  n = 1%nat /\ match skipn 1 s with c :: _ => is_oper_char c = false | [] => True end.
+Proof.
+  intros ops s k n _ Hdot Hq Hfm Hk.
+  apply first_match_some in Hfm. destruct Hfm as [r [Hin [Hrk Hm]]].
+  apply In_lexicon in Hin. destruct Hin as [Hin|[Hin|[[k0 [Hk0 ->]]|Hin]]].
+  - simpl in Hin.
+    repeat (destruct Hin as [<-|Hin]; [simpl in Hrk; subst k; destruct Hk as [Hk|Hk]; discriminate Hk|]).
+    contradiction.
+  - apply In_prim_rules in Hin. destruct Hin as [->| ->]; simpl in Hm; apply match_prim_spec in Hm;
+      destruct Hm as [-> Hm]; split; try reflexivity; exact Hm.
+  - rewrite rule_kind_oper in Hrk. subst k0. apply mem_op_In in Hk0.
+    destruct Hk as [->| ->]; congruence.
+  - simpl in Hin.
+    repeat (destruct Hin as [<-|Hin]; [simpl in Hrk; subst k; destruct Hk as [Hk|Hk]; discriminate Hk|]).
+    contradiction.
+Qed.
+
+(* ------------------------------------------------------------------------------------------------------------ *)
+(* every rule consumes between 1 and length-of-input runes                                                      *)
+
+Lemma span_len : forall p l n t, span p l = (n, t) -> List.length l = (n + List.length t)%nat.
+Proof.
+  induction l as [|c r IH]; intros n t H; cbn [span] in H.
+  - inversion H; subst. reflexivity.
+  - destruct (p c).
+    + destruct (span p r) as [n' t'] eqn:E. inversion H; subst. cbn [List.length]. rewrite (IH _ _ eq_refl). lia.
+    + inversion H; subst. reflexivity.
+Qed.
+
+Definition step_ok (f : list N -> option (nat * list N)) : Prop :=
+  forall l n t, f l = Some (n, t) -> List.length l = (n + List.length t)%nat.
+
+Lemma m_int_ok : step_ok m_int.
+Proof.
+  intros l n t H. unfold m_int in H. destruct l as [|c r]; [discriminate|].
+  destruct (N.eqb c 48).
+  - inversion H; subst. reflexivity.
+  - destruct (N.leb 49 c && N.leb c 57); [|discriminate].
+    destruct (span is_digit r) as [n' t'] eqn:E. inversion H; subst. cbn [List.length].
+    rewrite (span_len _ _ _ _ E). lia.
+Qed.
+
+Lemma m_frac_ok : step_ok m_frac.
+Proof.
+  intros l n t H. unfold m_frac in H. destruct l as [|c r]; [discriminate|].
+  destruct (N.eqb c 46); [|discriminate].
+  destruct (span is_digit r) as [n' t'] eqn:E. destruct n' as [|n']; [discriminate|].
+  inversion H; subst. cbn [List.length]. rewrite (span_len _ _ _ _ E). lia.
+Qed.
+
+Lemma m_exp_ok : step_ok m_exp.
+Proof.
+  intros l n t H. unfold m_exp in H. destruct l as [|c r]; [discriminate|].
+  destruct (N.eqb c 101 || N.eqb c 69); [|discriminate].
+  destruct r as [|d r'].
+  - cbn [span] in H. discriminate.
+  - destruct (N.eqb d 45 || N.eqb d 43).
+    + destruct (span is_digit r') as [n' t'] eqn:E. destruct n' as [|n']; [discriminate|].
+      inversion H; subst. cbn [List.length]. rewrite (span_len _ _ _ _ E). lia.
+    + destruct (span is_digit (d :: r')) as [n' t'] eqn:E. destruct n' as [|n']; [discriminate|].
+      inversion H; subst. cbn [List.length]. apply span_len in E. cbn [List.length] in E. lia.
+Qed.
+
+Lemma star_ok : forall step, step_ok step -> forall fuel l n t,
+  star step fuel l = (n, t) -> List.length l = (n + List.length t)%nat.
+Proof.
+  intros step Hs. induction fuel as [|f IH]; intros l n t H; cbn [star] in H.
+  - inversion H; subst. reflexivity.
+  - destruct (step l) as [[n1 t1]|] eqn:E.
+    + destruct (star step f t1) as [m u] eqn:E2. inversion H; subst.
+      rewrite (Hs _ _ _ E). rewrite (IH _ _ _ E2). lia.
+    + inversion H; subst. reflexivity.
+Qed.
+
+Definition matcher_ok (m : list N -> option nat) : Prop := forall l n, m l = Some n -> (n <= List.length l)%nat.
+
+Lemma m_float1_ok : matcher_ok m_float1.
+Proof.
+  intros l n H. unfold m_float1 in H.
+  destruct (m_int l) as [[n0 r0]|] eqn:E0; [|discriminate].
+  destruct (m_frac r0) as [[n1 r1]|] eqn:E1; [|discriminate].
+  destruct (star m_frac (len r1) r1) as [n2 r2] eqn:E2.
+  apply m_int_ok in E0. apply m_frac_ok in E1. apply (star_ok _ m_frac_ok) in E2.
+  destruct (m_exp r2) as [[n3 r3]|] eqn:E3.
+  - apply m_exp_ok in E3. inversion H; subst. lia.
+  - inversion H; subst. lia.
+Qed.
+
+Lemma m_float2_ok : matcher_ok m_float2.
+Proof.
+  intros l n H. unfold m_float2 in H.
+  destruct (m_int l) as [[n0 r0]|] eqn:E0; [|discriminate]. apply m_int_ok in E0.
+  assert (Hf : exists n1 r1, (match m_frac r0 with Some (n, t) => (n, t) | None => (O, r0) end) = (n1, r1)
+                              /\ List.length r0 = (n1 + List.length r1)%nat).
+  { destruct (m_frac r0) as [[n1 r1]|] eqn:E1.
+    - exists n1, r1. split; [reflexivity|]. apply m_frac_ok in E1. exact E1.
+    - exists O, r0. split; reflexivity. }
+  destruct Hf as [n1 [r1 [Hf Hl]]]. rewrite Hf in H.
+  destruct (m_exp r1) as [[n2 r2]|] eqn:E2; [|discriminate]. apply m_exp_ok in E2.
+  destruct (star m_exp (len r2) r2) as [n3 r3] eqn:E3. apply (star_ok _ m_exp_ok) in E3.
+  inversion H; subst. lia.
+Qed.
+
+Lemma m_radix_ok : forall letter first rest, matcher_ok (m_radix letter first rest).
+Proof.
+  intros letter first rest l n H. unfold m_radix in H.
+  destruct l as [|z [|x [|c r]]]; try discriminate.
+  destruct (N.eqb z 48 && N.eqb x letter); [|discriminate].
+  destruct (N.eqb c 48).
+  - inversion H; subst. cbn [List.length]. lia.
+  - destruct (first c); [|discriminate]. destruct (span rest r) as [n' t'] eqn:E.
+    apply span_len in E. inversion H; subst. cbn [List.length]. lia.
+Qed.
+
+Lemma m_dec_ok : matcher_ok m_dec.
+Proof.
+  intros l n H. unfold m_dec in H. destruct (m_int l) as [[n0 r0]|] eqn:E0; [|discriminate].
+  apply m_int_ok in E0. simpl in H. inversion H; subst. lia.
+Qed.
+
+Lemma m_str_body_ok_aux : forall m l, (List.length l <= m)%nat -> forall n, m_str_body l = Some n -> (n <= List.length l)%nat.
+Proof.
+  induction m as [|m IH]; intros l Hl n H.
+  - destruct l; [discriminate|]. cbn [List.length] in Hl. lia.
+  - destruct l as [|c r]; [discriminate|]. cbn [m_str_body] in H. cbn [List.length] in *.
+    destruct (N.eqb c 34); [inversion H; subst; lia|].
+    destruct (N.eqb c 92).
+    + destruct r as [|e r']; [discriminate|]. cbn [List.length] in *.
+      destruct (is_simple_escape e).
+      * destruct (m_str_body r') as [n'|] eqn:E; [|discriminate]. apply IH in E; [|lia].
+        simpl in H. inversion H; subst. lia.
+      * destruct (N.eqb e 117); [|discriminate].
+        destruct r' as [|h1 [|h2 [|h3 [|h4 r4]]]]; try discriminate. cbn [List.length] in *.
+        destruct (is_hex h1 && is_hex h2 && is_hex h3 && is_hex h4); [|discriminate].
+        destruct (m_str_body r4) as [n'|] eqn:E; [|discriminate]. apply IH in E; [|lia].
+        simpl in H. inversion H; subst. lia.
+    + destruct (m_str_body r) as [n'|] eqn:E; [|discriminate]. apply IH in E; [|lia].
+      simpl in H. inversion H; subst. lia.
+Qed.
+
+Lemma m_dqstr_ok : matcher_ok m_dqstr.
+Proof.
+  intros l n H. unfold m_dqstr in H. destruct l as [|c r]; [discriminate|].
+  destruct (N.eqb c 34); [|discriminate].
+  destruct (m_str_body r) as [n'|] eqn:E; [|discriminate].
+  apply (m_str_body_ok_aux _ _ (le_n _)) in E. simpl in H. inversion H; subst. cbn [List.length]. lia.
+Qed.
+
+Lemma m_delim_ok : forall o stop cl, matcher_ok (m_delim o stop cl).
+Proof.
+  intros o stop cl l n H. unfold m_delim in H. destruct l as [|c r]; [discriminate|].
+  destruct (N.eqb c o); [|discriminate].
+  destruct (span (fun x => negb (stop x)) r) as [n' t] eqn:E. apply span_len in E.
+  destruct t as [|d t']; [discriminate|]. destruct (N.eqb d cl); [|discriminate].
+  inversion H; subst. cbn [List.length] in *. lia.
+Qed.
+
+Lemma m_sym_ok : matcher_ok m_sym.
+Proof.
+  intros l n H. unfold m_sym in H. destruct l as [|c r]; [discriminate|].
+  destruct (is_id_start c); [|discriminate].
+  destruct (span is_id_char r) as [n' t] eqn:E. apply span_len in E.
+  inversion H; subst. cbn [List.length]. lia.
+Qed.
+
+Definition rule_ok (r : rule) : Prop := forall s n, rule_match r s = Some n -> (0 < n <= List.length s)%nat.
+
+Lemma strip_prefix_len : forall k s r, strip_prefix k s = Some r -> (len k <= List.length s)%nat.
+Proof. intros k s r H. apply strip_prefix_app in H. subst s. rewrite app_length. unfold len. lia. Qed.
+
+Lemma len_pos : forall (k : list N), k <> [] -> (0 < len k)%nat.
+Proof. intros [|x k] H; [congruence|]. unfold len. cbn [List.length]. lia. Qed.
+
+Lemma RStr_ok : forall k, k <> [] -> rule_ok (RStr k).
+Proof.
+  intros k Hk s n H. simpl in H. unfold match_str in H.
+  destruct (strip_prefix k s) eqn:E; [|discriminate]. inversion H; subst.
+  split; [apply len_pos; exact Hk|eapply strip_prefix_len; eauto].
+Qed.
+
+Lemma RKeyword_ok : forall k, k <> [] -> rule_ok (RKeyword k).
+Proof.
+  intros k Hk s n H. simpl in H. unfold match_keyword in H.
+  destruct (strip_prefix k s) as [r|] eqn:E; [|discriminate].
+  assert (n = len k) as -> by (destruct r as [|c r]; [|destruct (is_id_char c)]; congruence).
+  split; [apply len_pos; exact Hk|eapply strip_prefix_len; eauto].
+Qed.
+
+Lemma RPrim_ok : forall k, k <> [] -> rule_ok (RPrim k).
+Proof.
+  intros k Hk s n H. simpl in H. unfold match_prim in H.
+  destruct (strip_prefix k s) as [r|] eqn:E; [|discriminate].
+  assert (n = len k) as -> by (destruct r as [|c r]; [|destruct (is_oper_char c)]; congruence).
+  split; [apply len_pos; exact Hk|eapply strip_prefix_len; eauto].
+Qed.
+
+Lemma RRegex_ok : forall k m, matcher_ok m -> rule_ok (RRegex k m).
+Proof.
+  intros k m Hm s n H. simpl in H. destruct (m s) as [n'|] eqn:E; [|discriminate].
+  apply Hm in E. destruct n' as [|n']; [discriminate|]. inversion H; subst. lia.
+Qed.
+
+Lemma op_wf_nonempty : forall k, op_wf k = true -> k <> [].
+Proof. intros k H ->. vm_compute in H. discriminate. Qed.
+
+Lemma ops_wf_In : forall ops k, ops_wf ops = true -> In k ops -> op_wf k = true.
+Proof. intros ops k H Hin. unfold ops_wf in H. rewrite forallb_forall in H. apply H. exact Hin. Qed.
+
+Lemma lexicon_ok : forall ops, ops_wf ops = true -> forall r, In r (lexicon ops) -> rule_ok r.
+Proof.
+  intros ops Hwf r Hin. apply In_lexicon in Hin. destruct Hin as [Hin|[Hin|[[k0 [Hk0 ->]]|Hin]]].
+  - simpl in Hin. repeat (destruct Hin as [<-|Hin]; [apply RStr_ok; discriminate|]). contradiction.
+  - apply In_prim_rules in Hin. destruct Hin as [->| ->]; apply RPrim_ok; discriminate.
+  - pose proof (op_wf_nonempty _ (ops_wf_In _ _ Hwf Hk0)) as Hne. unfold oper_rule.
+    destruct (is_ident_op k0); [apply RKeyword_ok|apply RStr_ok]; exact Hne.
+  - simpl in Hin.
+    destruct Hin as [<-|Hin]; [apply RKeyword_ok; discriminate|].
+    destruct Hin as [<-|Hin]; [apply RKeyword_ok; discriminate|].
+    destruct Hin as [<-|Hin]; [apply RRegex_ok, m_float1_ok|].
+    destruct Hin as [<-|Hin]; [apply RRegex_ok, m_float2_ok|].
+    destruct Hin as [<-|Hin]; [apply RRegex_ok, m_radix_ok|].
+    destruct Hin as [<-|Hin]; [apply RRegex_ok, m_radix_ok|].
+    destruct Hin as [<-|Hin]; [apply RRegex_ok, m_radix_ok|].
+    destruct Hin as [<-|Hin]; [apply RRegex_ok, m_dec_ok|].
+    destruct Hin as [<-|Hin]; [apply RRegex_ok, m_dqstr_ok|].
+    destruct Hin as [<-|Hin]; [apply RRegex_ok, m_delim_ok|].
+    destruct Hin as [<-|Hin]; [apply RRegex_ok, m_delim_ok|].
+    destruct Hin as [<-|Hin]; [apply RRegex_ok, m_sym_ok|].
+    contradiction.
+Qed.
+
+(* ------------------------------------------------------------------------------------------------------------ *)
+(* the loop                                                                                                     *)
+
+Lemma skip_space_spec : forall s c c1 s1, skip_space c s = (c1, s1) ->
+  exists ws, s = (ws ++ s1)%list /\ forallb is_space ws = true /\ c1 = move_over c ws /\
+             match s1 with x :: _ => is_space x = false | [] => True end.
+Proof.
+  induction s as [|r t IH]; intros c c1 s1 H; cbn [skip_space] in H.
+  - inversion H; subst. exists []. repeat split.
+  - destruct (is_space r) eqn:E.
+    + destruct (IH _ _ _ H) as [ws [H1 [H2 [H3 H4]]]]. exists (r :: ws). subst t. repeat split.
+      * simpl. rewrite E, H2. reflexivity.
+      * exact H3.
+      * exact H4.
+    + inversion H; subst. exists []. repeat split. exact E.
+Qed.
+
+Lemma take_move_spec : forall n c s, (n <= List.length s)%nat ->
+  take_move n c s = (firstn n s, move_over c (firstn n s), skipn n s).
+Proof.
+  induction n as [|n IH]; intros c s H.
+  - destruct s; reflexivity.
+  - destruct s as [|r t]; [cbn [List.length] in H; lia|]. cbn [take_move firstn skipn].
+    rewrite IH by (cbn [List.length] in H; lia). reflexivity.
+Qed.
+
+Lemma lex_loop_ok : forall rs, (forall r, In r rs -> rule_ok r) ->
+  forall fuel c s ts, lex_loop fuel rs c s = Some ts -> tokens_ok c s ts.
+Proof.
+  intros rs Hrs. induction fuel as [|f IH]; intros c s ts H; cbn [lex_loop] in H; [discriminate|].
+  destruct (skip_space c s) as [c1 s1] eqn:Hss.
+  apply skip_space_spec in Hss. destruct Hss as [ws [Hs [Hws [Hc1 Hhd]]]].
+  destruct s1 as [|x s1'].
+  - inversion H; subst. apply tok_nil. rewrite app_nil_r. exact Hws.
+  - remember (x :: s1') as s1 eqn:Es1.
+    destruct (first_match rs s1) as [[k n]|] eqn:Hfm; [|discriminate].
+    destruct (first_match_some _ _ _ _ Hfm) as [r [Hin [_ Hm]]].
+    destruct (Hrs r Hin _ _ Hm) as [Hn0 Hn1].
+    rewrite (take_move_spec _ _ _ Hn1) in H.
+    destruct (lex_loop f rs (move_over c1 (firstn n s1)) (skipn n s1)) as [ts'|] eqn:Hl; [|discriminate].
+    inversion H; subst ts. clear H.
+    apply tok_cons with (ws := ws) (rest := skipn n s1); cbn [t_lexeme t_idx t_line t_col t_end].
+    + rewrite firstn_skipn. exact Hs.
+    + exact Hws.
+    + intro Hnil. apply (f_equal (@List.length N)) in Hnil. rewrite firstn_length in Hnil.
+      cbn [List.length] in Hnil. lia.
+    + subst c1. reflexivity.
+    + subst c1. reflexivity.
+    + subst c1. reflexivity.
+    + rewrite move_over_idx. reflexivity.
+    + rewrite move_over_app. rewrite <- Hc1. apply IH. exact Hl.
+Qed.
+
+Lemma partition : forall ops src ts,
+  ops_wf ops = true -> lex ops src = Some ts -> tokens_ok (mkCur 0 0 0) src ts.
+Proof.
+  intros ops src ts Hwf H. unfold lex in H. eapply lex_loop_ok; [|exact H]. apply lexicon_ok. exact Hwf.
+Qed.
+
+Lemma lex_loop_none : forall rs, (forall r, In r rs -> rule_ok r) ->
+  forall fuel c s, (List.length s < fuel)%nat -> lex_loop fuel rs c s = None ->
+  exists pre rest, s = (pre ++ rest)%list /\ rest <> [] /\
+    match rest with c :: _ => is_space c = false | [] => False end /\ first_match rs rest = None.
+Proof.
+  intros rs Hrs. induction fuel as [|f IH]; intros c s Hlen H; [lia|]. cbn [lex_loop] in H.
+  destruct (skip_space c s) as [c1 s1] eqn:Hss.
+  apply skip_space_spec in Hss. destruct Hss as [ws [Hs [Hws [Hc1 Hhd]]]].
+  destruct s1 as [|x s1']; [discriminate|].
+  remember (x :: s1') as s1 eqn:Es1.
+  destruct (first_match rs s1) as [[k n]|] eqn:Hfm.
+  - destruct (first_match_some _ _ _ _ Hfm) as [r [Hin [_ Hm]]].
+    destruct (Hrs r Hin _ _ Hm) as [Hn0 Hn1].
+    rewrite (take_move_spec _ _ _ Hn1) in H.
+    destruct (lex_loop f rs (move_over c1 (firstn n s1)) (skipn n s1)) as [ts'|] eqn:Hl; [discriminate|].
+    apply IH in Hl.
+    + destruct Hl as [pre [rest [Hsk [Hne [Hsp Hno]]]]].
+      exists (ws ++ firstn n s1 ++ pre)%list, rest. repeat split; try assumption.
+      rewrite <- !app_assoc. rewrite <- Hsk. rewrite firstn_skipn. exact Hs.
+    + rewrite skipn_length. subst s. rewrite app_length in Hlen. lia.
+  - exists ws, s1. subst s1. repeat split; try assumption. discriminate.
+Qed.
+
+Lemma total : forall ops src,
+  ops_wf ops = true -> lex ops src = None ->
+  exists pre rest, src = (pre ++ rest)%list /\ rest <> [] /\
+    match rest with c :: _ => is_space c = false | [] => False end /\ first_match (lexicon ops) rest = None.
+Proof.
+  intros ops src Hwf H. unfold lex in H. eapply lex_loop_none; [apply lexicon_ok; exact Hwf| |exact H].
+  unfold len. lia.
+Qed.
+
+(* ------------------------------------------------------------------------------------------------------------ *)
+(* longest match among symbolic operators                                                                       *)
+
+Lemma first_match_sorted : forall S s k n k',
+  StronglySorted (ge_key byte_len) S ->
+  first_match (map oper_rule S) s = Some (k, n) -> In k' S -> (byte_len k < byte_len k')%nat ->
+  rule_match (oper_rule k') s = None.
+Proof.
+  induction S as [|y S IH]; intros s k n k' Hs Hfm Hin Hlt; [contradiction|].
+  inversion Hs as [|? ? Hs' Hall]; subst. cbn [map first_match] in Hfm.
+  destruct (rule_match (oper_rule y) s) as [n'|] eqn:E.
+  - exfalso. rewrite rule_kind_oper in Hfm. inversion Hfm; subst. destruct Hin as [->|Hin]; [lia|].
+    rewrite Forall_forall in Hall. specialize (Hall _ Hin). unfold ge_key in Hall. lia.
+  - destruct Hin as [<-|Hin]; [exact E|]. eapply IH; eauto.
+Qed.
+
+Lemma match_str_none : forall k s, match_str k s = None -> strip_prefix k s = None.
+Proof. intros k s H. unfold match_str in H. destruct (strip_prefix k s); [discriminate|reflexivity]. Qed.
+
+Lemma no_punct_start_In : forall ops c r, no_punct_start ops = true -> In (c :: r) ops ->
+  existsb (N.eqb c) fixed_punct = false.
+Proof.
+  intros ops c r H Hin. unfold no_punct_start in H. rewrite forallb_forall in H. specialize (H _ Hin).
+  cbv beta iota in H. apply negb_true_iff in H. exact H.
+Qed.
+
+Lemma sym_op_chars : forall ops k, ops_wf ops = true -> In k ops -> is_ident_op k = false ->
+  forallb is_oper_char k = true.
+Proof.
+  intros ops k Hwf Hin Hid. pose proof (ops_wf_In _ _ Hwf Hin) as H. unfold op_wf in H.
+  rewrite Hid in H. apply andb_true_iff in H. destruct H as [_ H]. exact H.
+Qed.
+
+Lemma match_prim_prefix : forall k s n, match_prim k s = Some n ->
+  exists r, s = (k ++ r)%list /\ match r with c :: _ => is_oper_char c = false | [] => True end.
+Proof.
+  intros k s n H. unfold match_prim in H. destruct (strip_prefix k s) as [r|] eqn:E; [|discriminate].
+  apply strip_prefix_app in E. exists r. split; [exact E|]. destruct r as [|c r]; [exact I|].
+  destruct (is_oper_char c); [discriminate|reflexivity].
+Qed.
+
+Lemma longest : forall ops s k n k',
+  ops_wf ops = true -> no_punct_start ops = true ->
+  first_match (lexicon ops) s = Some (k, n) ->
+  mem_op k ops = true -> is_ident_op k = false ->
+  mem_op k' ops = true -> is_ident_op k' = false -> (byte_len k < byte_len k')%nat ->
+  strip_prefix k' s = None.
+Proof.
+  intros ops s k n k' Hwf Hnp Hfm Hk Hid Hk' Hid' Hlt.
+  apply mem_op_In in Hk. apply mem_op_In in Hk'.
+  assert (Hrule : oper_rule k' = RStr k') by (unfold oper_rule; rewrite Hid'; reflexivity).
+  assert (Hks : In k' (sort_ops byte_len ops)) by (apply (proj2 (sort_In byte_len _ _)); exact Hk').
+  assert (Hgoal : rule_match (oper_rule k') s = None -> strip_prefix k' s = None).
+  { intro H. rewrite Hrule in H. simpl in H. apply match_str_none. exact H. }
+  rewrite lexicon_parts in Hfm. rewrite !first_match_app in Hfm.
+  destruct (first_match fixed_rules s) as [p|] eqn:E1.
+  { exfalso. inversion Hfm; subst p. apply first_match_some in E1. destruct E1 as [r [Hin [Hrk _]]].
+    simpl in Hin.
+    repeat (destruct Hin as [<-|Hin];
+            [simpl in Hrk; subst k; apply (no_punct_start_In _ _ _ Hnp) in Hk; vm_compute in Hk; discriminate|]).
+    contradiction. }
+  destruct (first_match prim_rules s) as [p|] eqn:E2.
+  { inversion Hfm; subst p. apply first_match_some in E2. destruct E2 as [r [Hin [Hrk Hm]]].
+    destruct (strip_prefix k' s) as [r'|] eqn:Esp; [exfalso|reflexivity].
+    apply strip_prefix_app in Esp.
+    pose proof (sym_op_chars _ _ Hwf Hk' Hid') as Hoc.
+    assert (Hc : exists c, r = RPrim [c]).
+    { apply In_prim_rules in Hin. destruct Hin as [->| ->]; eexists; reflexivity. }
+    destruct Hc as [c ->]. simpl in Hrk. subst k. simpl in Hm. apply match_prim_prefix in Hm.
+    destruct Hm as [r0 [Hs Hm]]. rewrite Hs in Esp.
+    destruct k' as [|a [|b k'']].
+    - simpl in Hlt. lia.
+    - inversion Esp; subst. lia.
+    - inversion Esp; subst. cbn [forallb] in Hoc.
+      apply andb_true_iff in Hoc. destruct Hoc as [_ Hoc]. apply andb_true_iff in Hoc. destruct Hoc as [Hb _].
+      congruence. }
+  destruct (first_match (map oper_rule (sort_ops byte_len ops)) s) as [p|] eqn:E3.
+  { inversion Hfm; subst p. apply Hgoal.
+    eapply first_match_sorted; [apply sort_sorted|exact E3|exact Hks|exact Hlt]. }
+  apply Hgoal. eapply first_match_none; [exact E3|]. apply in_map. exact Hks.
+Qed.
+
+(* ------------------------------------------------------------------------------------------------------------ *)
+(* literals                                                                                                     *)
+
+(* rules that compare a fixed text fail on an input whose first rune differs from the text's first rune *)
+Definition head_np (p : N -> bool) (r : rule) : bool :=
+  match r with
+  | RRegex _ _ => false
+  | RStr k | RKeyword k | RPrim k => match k with a :: _ => negb (p a) | [] => false end
+  end.
+
+Lemma strip_prefix_head : forall a k c t, N.eqb a c = false -> strip_prefix (a :: k) (c :: t) = None.
+Proof. intros a k c t H. cbn [strip_prefix]. rewrite H. reflexivity. Qed.
+
+Lemma head_np_fail : forall p r c t, p c = true -> head_np p r = true -> rule_match r (c :: t) = None.
+Proof.
+  intros p r c t Hp H.
+  assert (Hk : forall k, match k with a :: _ => negb (p a) | [] => false end = true ->
+                         strip_prefix k (c :: t) = None).
+  { intros [|a k] Hk; [discriminate|]. apply strip_prefix_head. apply negb_true_iff in Hk.
+    destruct (N.eqb a c) eqn:E; [|reflexivity]. apply N.eqb_eq in E. subst a. congruence. }
+  destruct r as [k|k|k|k m]; simpl in H; [| | |discriminate]; apply Hk in H; simpl;
+    [unfold match_str|unfold match_keyword|unfold match_prim]; rewrite H; reflexivity.
+Qed.
+
+Lemma heads_fail : forall p rs c t, p c = true -> forallb (head_np p) rs = true -> first_match rs (c :: t) = None.
+Proof.
+  intros p rs c t Hp H. apply first_match_none_intro. intros r Hr. rewrite forallb_forall in H.
+  eapply head_np_fail; eauto.
+Qed.
+
+Lemma oper_rule_fail : forall k c t, op_wf k = true -> is_id_start c = false -> is_oper_char c = false ->
+  rule_match (oper_rule k) (c :: t) = None.
+Proof.
+  intros k c t Hwf Hid Hoc. unfold op_wf in Hwf. apply andb_true_iff in Hwf. destruct Hwf as [Hne Hwf].
+  destruct k as [|a k]; [discriminate|].
+  assert (Ha : N.eqb a c = false).
+  { destruct (N.eqb a c) eqn:E; [|reflexivity]. apply N.eqb_eq in E. subst a. exfalso.
+    apply orb_true_iff in Hwf. destruct Hwf as [Hwf|Hwf].
+    - unfold is_ident_op in Hwf. apply andb_true_iff in Hwf. destruct Hwf as [Hwf _]. congruence.
+    - cbn [forallb] in Hwf. apply andb_true_iff in Hwf. destruct Hwf as [Hwf _]. congruence. }
+  unfold oper_rule. destruct (is_ident_op (a :: k)); simpl; [unfold match_keyword|unfold match_str];
+    rewrite (strip_prefix_head _ _ _ _ Ha); reflexivity.
+Qed.
+
+Lemma ops_fail : forall ops c t, ops_wf ops = true -> is_id_start c = false -> is_oper_char c = false ->
+  first_match (map oper_rule (sort_ops byte_len ops)) (c :: t) = None.
+Proof.
+  intros ops c t Hwf Hid Hoc. apply first_match_none_intro. intros r Hr.
+  apply in_map_iff in Hr. destruct Hr as [k [<- Hk]]. apply (proj1 (sort_In byte_len _ _)) in Hk.
+  apply oper_rule_fail; auto. eapply ops_wf_In; eauto.
+Qed.
+
+Lemma not_oper : forall (p : N -> bool) c,
+  forallb (fun o => negb (p o)) oper_chars = true -> p c = true -> is_oper_char c = false.
+Proof.
+  intros p c H Hp. unfold is_oper_char. destruct (existsb (N.eqb c) oper_chars) eqn:E; [|reflexivity].
+  apply existsb_exists in E. destruct E as [o [Ho E]]. apply N.eqb_eq in E. subst o.
+  rewrite forallb_forall in H. specialize (H _ Ho). rewrite Hp in H. discriminate.
+Qed.
+
+Definition kw_rules : list rule := [RKeyword K_TRUE; RKeyword K_FALSE].
+
+(* everything before the regular-expression rules fails on a first rune that is neither an operator character nor
+   an identifier start nor the first rune of a fixed text *)
+Lemma front_fail : forall ops p c t,
+  ops_wf ops = true -> p c = true ->
+  forallb (head_np p) (fixed_rules ++ prim_rules ++ kw_rules) = true ->
+  forallb (fun o => negb (p o)) oper_chars = true ->
+  is_id_start c = false ->
+  first_match (lexicon ops) (c :: t) = first_match (skipn 2 tail_rules) (c :: t).
+Proof.
+  intros ops p c t Hwf Hp Hh Hoc Hid.
+  rewrite !forallb_app in Hh. apply andb_true_iff in Hh. destruct Hh as [H1 Hh].
+  apply andb_true_iff in Hh. destruct Hh as [H2 H3].
+  rewrite lexicon_parts, !first_match_app.
+  rewrite (heads_fail p _ c t Hp H1), (heads_fail p _ c t Hp H2).
+  rewrite (ops_fail ops c t Hwf Hid (not_oper p c Hoc Hp)).
+  change tail_rules with (kw_rules ++ skipn 2 tail_rules)%list. rewrite first_match_app.
+  rewrite (heads_fail p _ c t Hp H3). reflexivity.
+Qed.
+
+Lemma span_app : forall p a b, forallb p a = true ->
+  match b with x :: _ => p x = false | [] => True end -> span p (a ++ b) = (len a, b).
+Proof.
+  induction a as [|x a IH]; intros b Ha Hb.
+  - cbn [app]. destruct b as [|y b]; [reflexivity|]. cbn [span]. rewrite Hb. reflexivity.
+  - cbn [forallb] in Ha. apply andb_true_iff in Ha. destruct Ha as [Hx Ha].
+    cbn [app span]. rewrite Hx. rewrite (IH _ Ha Hb). reflexivity.
+Qed.
+
+(* ---- decimal integers ---- *)
+
+Lemma digit_cases : forall c, is_digit c = true ->
+  c = 48 \/ c = 49 \/ c = 50 \/ c = 51 \/ c = 52 \/ c = 53 \/ c = 54 \/ c = 55 \/ c = 56 \/ c = 57.
+Proof.
+  intros c H. unfold is_digit in H. apply andb_true_iff in H. destruct H as [H1 H2].
+  apply N.leb_le in H1. apply N.leb_le in H2. lia.
+Qed.
+
+Lemma digit_not_id_start : forall c, is_digit c = true -> is_id_start c = false.
+Proof.
+  intros c H. apply digit_cases in H.
+  repeat (destruct H as [->|H]; [reflexivity|]). subst c. reflexivity.
+Qed.
+
+Lemma dec_int_head : forall l, dec_int l = true -> exists c r, l = c :: r /\ is_digit c = true.
+Proof.
+  intros [|c [|x r]] H; [discriminate| |].
+  - exists c, []. split; [reflexivity|exact H].
+  - exists c, (x :: r). split; [reflexivity|]. simpl in H. apply andb_true_iff in H. destruct H as [H _].
+    unfold is_digit. apply andb_true_iff in H. destruct H as [H1 H2]. apply N.leb_le in H1.
+    apply andb_true_iff. split; [apply N.leb_le; lia|exact H2].
+Qed.
+
+Section DecInt.
+  Variables (l rest : list N).
+  Hypothesis Hl : dec_int l = true.
+  Hypothesis Hrest :
+    match rest with
+    | c :: _ => is_digit c = false /\ c <> 46 /\ c <> 101 /\ c <> 69 /\ c <> 98 /\ c <> 120 /\ c <> 111
+    | [] => True
+    end.
+
+  Lemma rest_not_digit : match rest with x :: _ => is_digit x = false | [] => True end.
+  Proof. destruct rest; [exact I|]. apply Hrest. Qed.
+
+  Lemma dec_m_int : m_int (l ++ rest) = Some (len l, rest).
+  Proof.
+    destruct l as [|c [|x r]] eqn:El; [discriminate| |].
+    - cbn [app m_int]. destruct (N.eqb c 48) eqn:E0; [reflexivity|].
+      simpl in Hl. assert (Hc : N.leb 49 c && N.leb c 57 = true).
+      { unfold is_digit in Hl. apply andb_true_iff in Hl. destruct Hl as [H1 H2].
+        apply N.leb_le in H1. apply N.eqb_neq in E0. apply andb_true_iff. split; [apply N.leb_le; lia|exact H2]. }
+      rewrite Hc. pose proof (span_app is_digit [] rest eq_refl rest_not_digit) as Hsp. cbn [app] in Hsp.
+      rewrite Hsp. reflexivity.
+    - cbn [dec_int] in Hl. apply andb_true_iff in Hl. destruct Hl as [Hc Hr].
+      change ((c :: x :: r) ++ rest)%list with (c :: ((x :: r) ++ rest))%list. cbn [m_int].
+      assert (E0 : N.eqb c 48 = false).
+      { apply N.eqb_neq. apply andb_true_iff in Hc. destruct Hc as [H1 _]. apply N.leb_le in H1. lia. }
+      rewrite E0, Hc. rewrite (span_app is_digit (x :: r) rest Hr rest_not_digit). reflexivity.
+  Qed.
+
+  Lemma rest_m_frac : m_frac rest = None.
+  Proof.
+    destruct rest as [|c r]; [reflexivity|]. destruct Hrest as [_ [H _]].
+    cbn [m_frac]. apply N.eqb_neq in H. rewrite H. reflexivity.
+  Qed.
+
+  Lemma rest_m_exp : m_exp rest = None.
+  Proof.
+    destruct rest as [|c r]; [reflexivity|]. destruct Hrest as [_ [_ [H1 [H2 _]]]].
+    cbn [m_exp]. apply N.eqb_neq in H1. apply N.eqb_neq in H2. rewrite H1, H2. reflexivity.
+  Qed.
+
+  Lemma dec_float1 : m_float1 (l ++ rest) = None.
+  Proof. unfold m_float1. rewrite dec_m_int, rest_m_frac. reflexivity. Qed.
+
+  Lemma dec_float2 : m_float2 (l ++ rest) = None.
+  Proof. unfold m_float2. rewrite dec_m_int, rest_m_frac, rest_m_exp. reflexivity. Qed.
+
+  Lemma dec_radix : forall letter f g,
+    match rest with c :: _ => c <> letter | [] => True end -> m_radix letter f g (l ++ rest) = None.
+  Proof.
+    intros letter f g Hle. destruct l as [|c [|x r]] eqn:El; [discriminate| |].
+    - cbn [app]. destruct rest as [|y [|c' r']]; try reflexivity.
+      cbn [m_radix]. apply N.eqb_neq in Hle. rewrite Hle. rewrite andb_false_r. reflexivity.
+    - cbn [dec_int] in Hl. apply andb_true_iff in Hl. destruct Hl as [Hc _].
+      assert (E0 : N.eqb c 48 = false).
+      { apply N.eqb_neq. apply andb_true_iff in Hc. destruct Hc as [H1 _]. apply N.leb_le in H1. lia. }
+      change ((c :: x :: r) ++ rest)%list with (c :: x :: (r ++ rest))%list.
+      destruct (r ++ rest)%list as [|c' r']; [reflexivity|]. cbn [m_radix]. rewrite E0. reflexivity.
+  Qed.
+
+  Lemma dec_m_dec : m_dec (l ++ rest) = Some (len l).
+  Proof. unfold m_dec. rewrite dec_m_int. reflexivity. Qed.
+End DecInt.
+
+Lemma literal_int : forall ops l rest,
+  ops_wf ops = true -> dec_int l = true ->
+  match rest with c :: _ => is_digit c = false /\ c <> 46 /\ c <> 101 /\ c <> 69 /\ c <> 98 /\ c <> 120 /\ c <> 111 | [] => True end ->
+  first_match (lexicon ops) (l ++ rest) = Some (K_NUM, len l).
+Proof.
+  intros ops l rest Hwf Hl Hrest.
+  pose proof (dec_float1 l rest Hl Hrest) as F1. pose proof (dec_float2 l rest Hl Hrest) as F2.
+  assert (Fb : m_bin (l ++ rest) = None).
+  { apply dec_radix; auto. destruct rest; [exact I|]. apply Hrest. }
+  assert (Fx : m_hex (l ++ rest) = None).
+  { apply dec_radix; auto. destruct rest; [exact I|]. apply Hrest. }
+  assert (Fo : m_oct (l ++ rest) = None).
+  { apply dec_radix; auto. destruct rest; [exact I|]. apply Hrest. }
+  pose proof (dec_m_dec l rest Hl Hrest) as Fd.
+  destruct (dec_int_head l Hl) as [c [r [El Hc]]].
+  assert (Hlen : len l = S (len r)) by (subst l; reflexivity).
+  revert F1 F2 Fb Fx Fo Fd. rewrite El. cbn [app]. intros F1 F2 Fb Fx Fo Fd.
+  rewrite (front_fail ops is_digit c (r ++ rest) Hwf Hc); try (vm_compute; reflexivity);
+    [|apply digit_not_id_start; exact Hc].
+  cbn [tail_rules skipn first_match rule_match rule_kind].
+  rewrite F1, F2, Fb, Fx, Fo, Fd. rewrite <- El. rewrite Hlen. reflexivity.
+Qed.
+
+(* ---- raw strings and time literals ---- *)
+
+Lemma delim_shape : forall o body cl rest,
+  ((o :: body ++ [cl]) ++ rest)%list = (o :: body ++ cl :: rest)%list.
+Proof. intros. cbn [app]. rewrite <- app_assoc. reflexivity. Qed.
+
+Lemma delim_len : forall (o : N) body cl, len (o :: body ++ [cl]) = (2 + len body)%nat.
+Proof. intros. unfold len. cbn [List.length]. rewrite app_length. cbn [List.length]. lia. Qed.
+
+Lemma m_delim_match : forall o stop cl body rest,
+  forallb (fun x => negb (stop x)) body = true -> stop cl = true ->
+  m_delim o stop cl (o :: body ++ cl :: rest) = Some (2 + len body)%nat.
+Proof.
+  intros o stop cl body rest Hb Hcl. cbn [m_delim]. rewrite N.eqb_refl.
+  rewrite (span_app (fun x => negb (stop x)) body (cl :: rest) Hb) by (rewrite Hcl; reflexivity).
+  rewrite N.eqb_refl. reflexivity.
+Qed.
+
+Lemma literal_raw : forall ops l rest,
+  ops_wf ops = true -> raw_string l -> first_match (lexicon ops) (l ++ rest) = Some (K_STR, len l).
+Proof.
+  intros ops l rest Hwf [body [-> Hb]]. rewrite delim_shape, delim_len.
+  rewrite (front_fail ops (N.eqb 96) 96 _ Hwf); try (vm_compute; reflexivity).
+  cbn [tail_rules skipn first_match rule_match rule_kind].
+  assert (Hraw : m_raw (96 :: body ++ 96 :: rest) = Some (2 + len body)%nat).
+  { apply m_delim_match; [|reflexivity]. rewrite <- Hb. apply forallb_ext. intro x.
+    rewrite N.eqb_sym. reflexivity. }
+  rewrite Hraw.
+  assert (Hbin : forall t, m_bin (96 :: t) = None /\ m_hex (96 :: t) = None /\ m_oct (96 :: t) = None).
+  { intros [|x [|c r]]; repeat split; reflexivity. }
+  destruct (Hbin (body ++ 96 :: rest)%list) as [-> [-> ->]].
+  reflexivity.
+Qed.
+
+Lemma literal_time : forall ops l rest,
+  ops_wf ops = true -> time_lit l -> first_match (lexicon ops) (l ++ rest) = Some (K_TIME, len l).
+Proof.
+  intros ops l rest Hwf [body [-> Hb]]. rewrite delim_shape, delim_len.
+  rewrite (front_fail ops (N.eqb 39) 39 _ Hwf); try (vm_compute; reflexivity).
+  cbn [tail_rules skipn first_match rule_match rule_kind].
+  assert (Htime : m_time (39 :: body ++ 39 :: rest) = Some (2 + len body)%nat).
+  { apply m_delim_match; [exact Hb|reflexivity]. }
+  rewrite Htime.
+  assert (Hbin : forall t, m_bin (39 :: t) = None /\ m_hex (39 :: t) = None /\ m_oct (39 :: t) = None).
+  { intros [|x [|c r]]; repeat split; reflexivity. }
+  destruct (Hbin (body ++ 39 :: rest)%list) as [-> [-> ->]].
+  reflexivity.
+Qed.
+
+Print Assumptions partition.
+Print Assumptions cursor_meaning.
+Print Assumptions longest.
+Print Assumptions whole_word.
+Print Assumptions prim_not_split.
+Print Assumptions literal_int.
+Print Assumptions literal_raw.
+Print Assumptions literal_time.
+Print Assumptions total.
